@@ -124,7 +124,8 @@ Proof. exact urlencoded_visible. Qed.
 Print Assumptions C03_urlencoded_visible.
 
 (* the same for every Content-Type value AddRequestHeader accepts: the media type in any letter
-   case, alone or followed by ';' and parameters (repair 70bcddc of a finding of this check) *)
+   case, optionally surrounded by white space, alone or followed by ';' and parameters (repairs
+   70bcddc and 9aa7e7e of findings of this check) *)
 Theorem C03_urlencoded_ct_parameter_visible : forall fold cookie_ord cfg o l ct,
   ct_is_urlencoded ct = true ->
   wf_pairs l -> bc_access cfg = true ->
@@ -138,21 +139,11 @@ Print Assumptions C03_urlencoded_ct_parameter_visible.
 Example C03_ct_guard_example :
   ct_is_urlencoded (str "Application/X-WWW-Form-Urlencoded; charset=UTF-8"%string) = true /\
   ct_is_urlencoded (str "application/x-www-form-urlencoded;"%string) = true /\
-  ct_is_urlencoded (str "application/x-www-form-urlencodedx"%string) = false.
+  (* white space around the media type: silently unparsed before repair 9aa7e7e (F49b) *)
+  ct_is_urlencoded (str " application/x-www-form-urlencoded ;charset=UTF-8"%string) = true /\
+  ct_is_urlencoded (str "application/x-www-form-urlencodedx"%string) = false /\
+  ct_is_urlencoded (str "application/x-www-form-urlencoded,x"%string) = false.
 Proof. vm_compute. auto. Qed.
-
-(* REFUTED (residual, reported): optional white space before the ';' — legal, accepted by
-   mime.ParseMediaType — still leaves the body unparsed: fields in no variable, REQUEST_BODY
-   empty, no error variable *)
-Theorem C03_urlencoded_ct_ows_refuted :
-  exists (ct : bytes) (l : list kv), wf_pairs l /\ l <> [] /\
-  is_prefix dc_ct_urlencoded (lower_ascii ct) = true /\
-  forall fold cookie_ord o,
-    let t0 := add_request_header fold cookie_ord txv_empty (str "Content-Type"%string) ct in
-    let t := process_request_body fold (mk_bcfg true false 1024) o t0 (enc_urlencoded l) in
-    cm_find_all (v_args_post t) = [] /\ v_request_body t = [] /\ v_reqbody_error t = false.
-Proof. exact urlencoded_ct_ows_refuted. Qed.
-Print Assumptions C03_urlencoded_ct_ows_refuted.
 
 (* JSON: when no two flattened paths coincide after case folding, every assignment of the
    flattening is in ARGS_POST under every iteration order *)
